@@ -30,6 +30,11 @@ Invs ==
 FreshCount == [][\A t \in Threads :
                    (cur[t].f # "none" /\ "verifier" \notin cur[t].done
                     /\ cur'[t].f # "none" /\ "verifier" \in cur'[t].done) => ctr'[cur[t].site] = 0]_vars
+\* C07 / C01 ("from any thread"): the counter is reset while the function does not yet lead to this installation's
+\* trampoline -- a call served by the new fake can never be wiped out by, or precede, the reset
+ResetBeforeLive == [][\A t \in Threads :
+                   (cur[t].f # "none" /\ "verifier" \notin cur[t].done
+                    /\ cur'[t].f # "none" /\ "verifier" \in cur'[t].done) => "wentry" \notin cur[t].done]_vars
 \* C05/C09: a refused installation modifies nothing
 RefusedUntouched == [][\A t \in Threads :
                    (cur[t].f # "none" /\ cur[t].gate # "ok") =>
